@@ -768,7 +768,7 @@ def execute(prop, scen):
                 bad = data["y_new"].copy()
                 bad.iloc[len(bad) // 2] = np.nan
                 try:   # (a tuner with refit=False never answers predict: nothing to compare)
-                    est.predict(data["fh"])
+                    pred_before = est.predict(data["fh"])
                 except Exception:
                     continue
                 # (observe the forecaster's own fit: only a call in which *that* raised is judged)
@@ -801,8 +801,9 @@ def execute(prop, scen):
                     # NotFittedError.
                     res.probe("failed_refit_checked")
                     if getattr(est, "is_fitted", False):
+                        pred_after = None
                         try:
-                            est.predict(data["fh"])
+                            pred_after = est.predict(data["fh"])
                         except NotFittedError:
                             v("fitted_flag_after_failed_fit", "after a fit that raised (reached via %s "
                               "on an already fitted object) is_fitted is True but predict raises "
@@ -810,6 +811,14 @@ def execute(prop, scen):
                             break
                         except Exception:
                             pass
+                        if how == "fit" and pred_after is not None and isinstance(pred_before, pd.Series) \
+                                and isinstance(pred_after, pd.Series) and not C.same_series(pred_before, pred_after):
+                            # fit(bad) raised and the forecaster keeps claiming to be fitted: then on
+                            # the data of its last successful fit, not on a mixture
+                            v("fitted_flag_after_failed_fit", "a direct re-fit raised, is_fitted stays "
+                              "True, but predict changed from %s to %s: part of the failed fit was kept"
+                              % (C.fmt(pred_before), C.fmt(pred_after)), how=how, refit=True, mixed=True)
+                            break
                         try:   # continue on a cleanly fitted object
                             est.fit(data["y"], fh=data["fh"])
                         except Exception:
